@@ -364,6 +364,34 @@ def special_statements():
         ("backslash", "select '\\' from t"), ("backslash-end", "select a from t \\"),
         ("very-long-id", "select " + "x" * 3000 + " from t"), ("very-long-string", "select '" + "y" * 5000 + "' from t"),
     ]
+    # dialect-specific shapes of aliases / table functions / select-list extensions (the extractors read alias segments,
+    # function arguments and wildcard modifiers positionally); run under EVERY dialect like the rest
+    S += [
+        ("multi-alias-explode", "select explode(m) as (k, v) from t"), ("multi-alias-posexplode", "select posexplode(a) as (p, v) from t"),
+        ("multi-alias-stack", "select stack(2, a, b) as (x, y) from t"), ("multi-alias-inline", "insert into w select inline(arr) as (a, b) from t"),
+        ("lateral-view-multi", "select k, v from t lateral view explode(m) x as k, v"),
+        ("lateral-view-outer", "insert into w select x.k from t lateral view outer explode(m) x as k"),
+        ("tsql-alias-eq", "select a = b, c = (select max(d) from s) from t"), ("tsql-alias-eq-insert", "insert into w select x = a + 1 from t"),
+        ("table-alias-cols", "select s.k from generate_series(1, 3) as s (k)"), ("values-alias-cols", "select v.a from (values (1, 2)) as v (a, b)"),
+        ("derived-alias-cols", "insert into w select q.x from (select a, b from t) as q (x, y)"),
+        ("unnest-ordinality", "select u.x from t, unnest(t.arr) with ordinality as u (x, n)"),
+        ("unnest-offset", "select x, o from t, unnest(t.arr) as x with offset as o"),
+        ("star-except", "insert into w select * except (a) from t"), ("star-replace", "insert into w select * replace (a + 1 as a) from t"),
+        ("star-exclude", "insert into w select * exclude (a) from t"), ("star-rename", "insert into w select * rename (a as b) from t"),
+        ("flatten", "select f.value from t, lateral flatten(input => t.x) f"), ("table-fn", "select * from table(f(1)) x"),
+        ("stage", "select $1, $2 from @st"), ("pivot", "select * from t pivot (sum(a) for b in ('x', 'y')) as p"),
+        ("unpivot", "select * from t unpivot (v for k in (a, b)) as u"), ("tablesample", "select a from t tablesample (10 percent) x"),
+        ("struct-field", "insert into w select t.s.f, t.arr[0].g from t"), ("json-arrow", "insert into w select j -> 'a' ->> 'b' from t"),
+        ("colon-path", "insert into w select v:a.b::string from t"), ("named-args", "select f(a => 1, b => t.c) from t"),
+        ("alias-string", "select a as 'x', b \"y\" from t"), ("alias-only-as", "select a as from t"), ("alias-paren-empty", "select f(a) as () from t"),
+        ("qualify", "select a from t qualify row_number() over (partition by b order by c) = 1"),
+        ("window-named", "select sum(a) over w from t window w as (partition by b)"),
+        ("interval", "select a + interval '1' day from t"), ("array-lit", "insert into w select array[a, b] from t"),
+        ("insert-select-alias-list", "insert into w (x, y) select a, b from t as q (a, b)"),
+    ]
+    # statements of an unsupported type (the message of UnsupportedStatementException / of the silent-mode warning is built from
+    # the statement text: formatting metacharacters in it must not matter)
+    S += [(f"unsupported-{i}", u) for i, u in enumerate(UNSUPPORTED_CANDIDATES)]
     return S
 
 
@@ -371,6 +399,10 @@ UNSUPPORTED_CANDIDATES = [
     "vacuum t1", "grant select on t1 to u1", "create index i1 on t1 (a)", "create schema s9", "create database d9",
     "drop schema s9", "drop index i1", "create role r1", "explain select 1", "commit", "rollback", "begin",
     "create sequence q1", "call p1()", "drop database d9", "revoke select on t1 from u1",
+    # the same kinds with %-, {}- and backslash metacharacters in their text
+    "explain select * from t1 where c like 'x%'", "explain select a % 2 from t1", "explain select '%s %d %(x)s' from t1",
+    "explain select '{0} {} {x}' from t1", "comment on table t1 is '100% sure'", "grant select on t1 to u1 /* 100% */",
+    "call p1('%', '{}', '\\')", "explain select '%' from t1",
 ]
 
 
